@@ -198,6 +198,9 @@ def load_known():
         return {'findings': []}
 
 
+LAST_REPORT = None
+
+
 class Report:
     """collects everything one check run produces and turns it into the verdict"""
 
@@ -218,6 +221,8 @@ class Report:
         self.evaluations = 0
         self.known = [f for f in load_known().get('findings', []) if f.get('property') == pid
                       or pid in f.get('properties', [])]
+        global LAST_REPORT
+        LAST_REPORT = self         # what an aborted run had established so far is reported with the abort
 
     # -- bookkeeping
     def count(self, name, k=1):
